@@ -155,7 +155,7 @@ class Resolver:
                     default = f[1]
                     applied = self._applied_argument(cur)
                     if applied is not None:
-                        return Res("unspecified", via=via + ["formal"], chain=chain)
+                        return self._applied_formal(cur, name, default, applied, visited, via, chain)
                     if default is None:
                         return Res("formal", None, None, binder="formal", via=via + ["formal"], chain=chain)
                     r = self.resolve_value_node(default, visited, via + ["formal"], chain + 1)
@@ -177,6 +177,31 @@ class Resolver:
             if hit is not None:
                 return self._take(name, hit, env_set, "with", visited, via, chain)
         return Res("unbound", via=via, chain=chain)
+
+    def _applied_formal(self, fn_node, name, default, applied, visited, via, chain) -> Res:
+        """A formal of a directly applied lambda: the supplied argument, else the default."""
+        has_formals = any(c.type == "formals" for c in fn_node.children)
+        simple = [c for c in fn_node.children if c.type == "identifier"]
+        if not has_formals:
+            # `x: body` applied to E: x is E, evaluated at the call site
+            r = self.resolve_value_node(applied, visited, via + ["argument"], chain + 1)
+            if r.kind == "value" and r.binder is None:
+                r.binder = "argument"
+            return r
+        if simple and simple[0].text.decode() == name:
+            return Res("unspecified", via=via + ["formal"], chain=chain)  # `args@{ … }`: the whole argument
+        arg_set = self._as_set_literal(applied, visited, chain)
+        if arg_set is None:
+            return Res("unspecified", via=via + ["formal"], chain=chain)
+        hit = _find_in_scope(arg_set, name)
+        if hit is not None:
+            return self._take(name, hit, arg_set, "argument", visited, via, chain)
+        if default is None:
+            return Res("unspecified", via=via + ["formal"], chain=chain)  # missing argument: an evaluation error
+        r = self.resolve_value_node(default, visited, via + ["default"], chain + 1)
+        if r.kind == "value" and r.binder is None:
+            r.binder = "default"
+        return r
 
     def _applied_argument(self, fn_node):
         p = fn_node.parent
